@@ -101,7 +101,7 @@ class Gen(object):
         if cls == "set" and name == "pop":
             if not v:
                 return False
-            v.remove(min(v, key=lambda x: (type(x).__name__, repr(x))))
+            v.remove(min(v, key=bm.value_key))
         else:
             # calls that RAISE on the mimic are part of the stream: the callback has to report the same error
             # class, every replica has to move on (see evaluate)
@@ -125,7 +125,9 @@ class Gen(object):
         self.cov[key] = self.cov.get(key, 0) + 1
 
     FAMILIES = [[(1, 'a'), ('a', 1), (1, None), (1, 2)], [((1,), 'x'), ((1,), 2), (None, (0, 'b'))], [1j, 2j, (3+1j)],
-                [frozenset([1, 2]), frozenset([2, 3]), frozenset([1]), frozenset()]]
+                [frozenset([1, 2]), frozenset([2, 3]), frozenset([1]), frozenset()],
+                [frozenset([45, 53]), frozenset([50]), frozenset([53, 61, 45])], [frozenset(['a', 'b']), frozenset(['a', 'c'])],
+                [(frozenset([45, 53]), 1), (frozenset([50]), 1), (frozenset([45, 53]), 0)]]
 
     def unordered_family(self):
         """ReplSet holding only members of one kind without a total order, then pops (mixed domain only): the
